@@ -25,3 +25,39 @@ Print Assumptions C20_real_run_has_effects.
 
 Theorem C20_entry_in_range : Nat.ltb id_exmod (length skeleton) = true.
 Proof. vm_compute. reflexivity. Qed.
+
+(* The black/whitelist gate.  exmod_gate (Gen/ExmodGate.v) is the boolean expression assigned to `proceed` in
+   exmod_single_folder, regenerated from the source on every run.  For EVERY blacklist, whitelist and module path:
+   the module proceeds to emission iff it is not blacklisted and (there is no whitelist or it is whitelisted) ... *)
+From CDD Require Import PyStr Gate GateProofs ExmodGate.
+
+Theorem C20_gate_table_sound : forall g,
+  (forall ib iw be we, (ib = true -> be = false) -> (iw = true -> we = false) -> eval4 ib iw be we g = Some (gate_spec ib iw be we)) ->
+  forall bl wl m, proceeds g bl wl m = Some (negb (mem_str m bl) && (is_nil wl || mem_str m wl)).
+Proof. exact gate_correct_from_table. Qed.
+Print Assumptions C20_gate_table_sound.
+
+Theorem C20_gate : forall bl wl m,
+  proceeds exmod_gate bl wl m = Some (negb (mem_str m bl) && (is_nil wl || mem_str m wl)).
+Proof.
+  apply gate_correct_from_table.
+  intros [] [] [] [] H1 H2; try (specialize (H1 eq_refl); discriminate); try (specialize (H2 eq_refl); discriminate);
+  vm_compute; reflexivity.
+Qed.
+Print Assumptions C20_gate.
+
+(* ... in particular a blacklisted module never proceeds, whatever the whitelist says, and with a whitelist present a
+   module outside it never proceeds ... *)
+Theorem C20_blacklist_wins : forall bl wl m, mem_str m bl = true -> proceeds exmod_gate bl wl m = Some false.
+Proof. intros bl wl m. apply blacklisted_never_proceeds, C20_gate. Qed.
+Theorem C20_whitelist_excludes : forall bl wl m,
+  is_nil wl = false -> mem_str m wl = false -> proceeds exmod_gate bl wl m = Some false.
+Proof. intros bl wl m. apply not_whitelisted_never_proceeds, C20_gate. Qed.
+
+(* ... and the gate is what decides: `if not proceed: return` follows it directly, the two lists are normalised to sets of
+   the given names and nothing but string / iterator helpers is called before it. *)
+Theorem C20_gate_in_force :
+  gate_guards_return = true
+  /\ list_normalisation = "map(frozenset, (blacklist or iter(()), whitelist or iter(())))"%string
+  /\ forallb (fun c => existsb (String.eqb c) ["'.'.join"; "iter"; "map"; "module_name.startswith"; "frozenset"]%string) calls_before_gate = true.
+Proof. repeat split; vm_compute; reflexivity. Qed.
